@@ -85,10 +85,49 @@ def protocol_rule(rep, f):
                "class " + S)
 
 
+def hash_root_rule(rep, f):
+    rep.rule("C10.c", "hash agrees with equality: ICValueHasher::isDuplicateOf compares two field values through a common ancestor "
+             "type, so tuples of differently derived types can be equal; ICValueHasher::getHashVal must therefore hash the "
+             "canonical form under the *root* of the type's derivation chain — on every path to the getCanonicalRepresentation "
+             "call the validator variable has last been through the exit test `!dv->getBaseValidator()` (CFG must-dataflow: "
+             "generated by the false edge of that test, killed by assignment). Equal tuples with different hashes land in "
+             "different buckets and a duplicate key / missing keyref goes unreported")
+    tu = os.path.join(core.REPO, "src/xercesc/validators/schema/identity/ValueStore.cpp")
+    g = core.run_xa([tu], cfg=r"^ICValueHasher::getHashVal$", flat=False)
+    cfg = guard.Cfg(g.cfg("ICValueHasher::getHashVal"))
+    canon = guard.sites(cfg, lambda x: x[0] == "c" and x[1].endswith("::getCanonicalRepresentation") and x[2] and x[2][0] == "l")
+    rep.floor("C10.c", len(canon), 1)
+    for bid, i, el in canon:
+        V = el["x"][2]
+
+        def gen_edge(p, k, V=V):
+            t = cfg.blocks[p].get("term")
+            c = t and t.get("cond")
+            if not c or k != 1:
+                return False
+            # `dv` itself false: the variable is null, the canonical form is not computed through it at all
+            return c == V or (c[0] == "c" and c[1] == "DatatypeValidator::getBaseValidator" and c[2] == V)
+
+        def kill(e, V=V):
+            x = e.get("x")
+            if x and x[0] == "b" and x[1] == "=" and x[2] == V:
+                return True
+            return any(d[0] == V[1] for d in e.get("decl", []))
+        st = guard.must_state(cfg, gen_edge=gen_edge, kill_el=kill)
+        ok = st(bid, i)
+        rep.ob("C10.c", "ICValueHasher::getHashVal@canon", ok,
+               "the hashed canonical form is computed by the root of the derivation chain" if ok else
+               "ICValueHasher::getHashVal (line %s): a path reaches %s->getCanonicalRepresentation without %s having been walked up to "
+               "the root type (no `getBaseValidator() == 0` exit test since its last assignment): values that isDuplicateOf treats as "
+               "equal through a common ancestor hash differently" % (el.get("l"), V[1], V[1]),
+               "src/xercesc/validators/schema/identity/ValueStore.cpp:%s" % el.get("l", 0))
+
+
 def run(rep):
     f = core.library_facts()
     rep.units.update(os.path.relpath(t, core.REPO) for t in f.tus)
     protocol_rule(rep, f)
+    hash_root_rule(rep, f)
     diag.run(rep, f, "C10")
     dispatch.run(rep, f, "C10")
     rep.undecided += ["value-space equality of field tuples (canonical forms, hashing)", "scoping results of key/keyref across nested scopes",
